@@ -85,7 +85,7 @@ def spec_trace(events, start=(False, ())):
 
 # ---- rendering --------------------------------------------------------------
 SHAPES = ['one', 'multi', 'compound', 'decorated', 'want', 'string', 'decoclass', 'decoclass1', 'decorated1', 'asyncdef',
-          'compound_comment', 'multi_comment', 'compound_comment_last']
+          'compound_comment', 'multi_comment', 'compound_comment_last', 'multi_blank', 'triple_blank', 'compound_blank']
 
 
 def render_stmt(shape, k, dirs):
@@ -103,6 +103,12 @@ def render_stmt(shape, k, dirs):
         return ['>>> w%d = [t(%d),%s' % (k, k, c), '...       # about the second element', '...       0]'], []
     if shape == 'compound_comment_last':
         return ['>>> if True:', '...     # a comment line first', '...     z%d = t(%d)%s' % (k, k, c)], []
+    if shape == 'multi_blank':            # an empty continuation line inside the statement, the directive behind it
+        return ['>>> w%d = [t(%d),' % (k, k), '...', '...       0]%s' % c], []
+    if shape == 'triple_blank':
+        return ['>>> s%d = t(%d) and """a' % (k, k), '...', '... b"""%s' % c], []
+    if shape == 'compound_blank':
+        return ['>>> if True:', '...     z%d = t(%d)' % (k, k), '...', '...     y%d = 0%s' % (k, c)], []
     if shape == 'decorated':
         return ['>>> @tr(%d)%s' % (k, c), '... def f%d():' % k, '...     pass'], []
     if shape == 'decoclass':
